@@ -231,8 +231,15 @@ func (s *Sim) adversarialInputs(cfg GenCfg) {
 	}
 }
 
+// hugeQuoteAmounts: amounts at which a conversion to msat in 64 bits wraps around to something
+// small (k * 2^64 / 1000 rounded up, plus a little), and the ends of the ranges.
+var hugeQuoteAmounts = []uint64{18446744073709552, 18446744073709553, 18446744073709560, 36893488147419104, 55340232221128655, 9223372036854776, 9223372036854775,
+	1 << 62, 1<<63 - 1, 1 << 63, 1<<63 + 7, 1<<64 - 1, 1<<64 - 1000, (1<<63)/1000 + 1}
+
 func (s *Sim) adversarialMint() {
-	switch s.Rng.Intn(5) {
+	switch s.Rng.Intn(6) {
+	case 5: // an absurd amount: refused, or quoted with an invoice for at least that amount (judged in NewMintQuote)
+		s.NewMintQuote(hugeQuoteAmounts[s.Rng.Intn(len(hugeQuoteAmounts))], false)
 	case 0: // unpaid quote
 		if q := s.NewMintQuote(1+uint64(s.Rng.Intn(500)), false); q != nil {
 			s.Mint(q, "exact")
